@@ -19,6 +19,9 @@ def tokErr (tok : Tok) (msg : String) : PErr :=
   { lineStart := tok.line, lineEnd := tok.endLine, charStart := tok.startChar,
     utf8Start := tok.startUtf8, charEnd := tok.endChar, utf8End := tok.endUtf8, msg := msg }
 
+/-- `NewLintParser`: no fonts, no default font, no line length, no switches, no environment errors. -/
+def lintEnv (env : Env) : Env := { autoVars := env.autoVars, envErrors := false }
+
 def compileLines (env : Env) (o : Opts) (src : List Char) : Except Result (List Line) :=
   match parseTokens env (Lexer.lexAll src) with
   | .error (.err e) => .error (.parseError e)
